@@ -91,6 +91,7 @@ pub fn should_gzip(headers: &HeaderMap) -> (r: bool)
 //@ after "else { break };": proof { assert(qi == es[k0]); assert(it_.rest@ =~= es.subrange(k0 + 1, es.len() as int)); }
 //@end
 
+//@auto_helpers src/lib.rs
 //@canary_false
 } // verus!
 fn main() {}
